@@ -54,6 +54,7 @@ type SlotOut struct {
 	DlSeenNs int64    `json:"dl_seen_ns"`
 	T1Ns     int64    `json:"t1_ns"`
 	RetAtD   int      `json:"ret_at_d"`
+	Leak     int      `json:"leak"` // wrapper goroutines left parked in a channel send after the abandoned work ended
 	Err      string   `json:"err,omitempty"`
 }
 
@@ -76,6 +77,37 @@ type slotInvoke func(parent context.Context, work func(ctx context.Context) (int
 const slotWait = 2 * time.Second
 
 func slotNum(v any) int64 { return int64(v.(float64)) }
+
+// leakedSenders: goroutines of a timeout wrapper (fx.DoWithTimeout, UnaryTimeoutInterceptor) parked in a
+// channel send.  The wrappers' channels are buffered for one value and get one value ("to avoid goroutine
+// leak", says the source), so on a tree where that holds the state never occurs; a goroutine seen in it
+// after its work has ended stays there for ever.  Looked for only after a call that was abandoned at its
+// timeout, for at most 3 ms.
+func leakedSenders() int {
+	n := 0
+	for try := 0; try < 12 && n == 0; try++ {
+		if try > 0 {
+			time.Sleep(250 * time.Microsecond)
+		}
+		buf := make([]byte, 1<<18)
+		for {
+			k := runtime.Stack(buf, true)
+			if k < len(buf) {
+				buf = buf[:k]
+				break
+			}
+			buf = make([]byte, 2*len(buf))
+		}
+		for _, g := range strings.Split(string(buf), "\n\n") {
+			head, _, _ := strings.Cut(g, "\n")
+			if strings.Contains(head, "[chan send") &&
+				(strings.Contains(g, "core/fx.DoWithTimeout") || strings.Contains(g, "serverinterceptors.UnaryTimeoutInterceptor")) {
+				n++
+			}
+		}
+	}
+	return n
+}
 
 func runSlot(c SlotCase, invoke slotInvoke) (out SlotOut) {
 	out = SlotOut{ID: c.ID, RetAtD: -1, Sched: []string{}, HObs: [][]any{}}
@@ -315,6 +347,14 @@ func runSlot(c SlotCase, invoke slotInvoke) (out SlotOut) {
 			out.R, out.E = resR, resE
 		}
 	}
+	if out.Ret && hEnded {
+		for j, e := range out.Sched {
+			if e == "St" && j < len(out.Sched)-1 {
+				out.Leak = leakedSenders() // the work ended after the wrapper had given up on it
+				break
+			}
+		}
+	}
 	out.HasDl = hasDl
 	if hasDl {
 		out.DlSeenNs = int64(dlSeen.Sub(tA))
@@ -384,6 +424,7 @@ type SlotSeqOut struct {
 	HObs   [][]any          `json:"hobs"`
 	Calls  []SlotSeqCallOut `json:"calls"`
 	RetAtD int              `json:"ret_at_d"`
+	Leak   int              `json:"leak"`
 	Stuck  int              `json:"stuck"`
 	Err    string           `json:"err,omitempty"`
 }
@@ -611,6 +652,14 @@ loop:
 	for i, q := range calls {
 		if q.started && !q.sSeen && returned(q, slotWait) {
 			emitS(i, q)
+		}
+	}
+	if out.Stuck < 0 {
+		for _, e := range out.Sched {
+			if e[1] == "St" {
+				out.Leak = leakedSenders()
+				break
+			}
 		}
 	}
 	for _, q := range calls {
